@@ -51,6 +51,12 @@ func c08Failing(keys []val.Item, thorough, twoIdx bool) []drv.Op {
 		add("Del(unused #name)", drv.Op{K: drv.KDel, Key: k, Cond: rx.Exists("h"), Names: map[string]string{"#x": "a"}})
 		add("Del(unused :value)", drv.Op{K: drv.KDel, Key: k, Cond: rx.Exists("h"), Values: sv})
 		add("Del(undefined :value in condition)", drv.Op{K: drv.KDel, Key: k, Cond: rx.Eq("a", ":undef")})
+		// a ReturnValues setting that PutItem / DeleteItem do not accept (judged only if the
+		// implementation rejects it: rejected means nothing was written or deleted)
+		for _, rv := range []string{"ALL_NEW", "UPDATED_OLD", "UPDATED_NEW", "BOGUS"} {
+			add("Put(ReturnValues "+rv+")", drv.Op{K: drv.KPut, Item: with(k, "a", val.S("rv"), "g", val.S("y")), RetVals: rv})
+			add("Del(ReturnValues "+rv+")", drv.Op{K: drv.KDel, Key: k, RetVals: rv})
+		}
 		// syntax errors
 		add("Put(condition syntax error)", drv.Op{K: drv.KPut, Item: with(k, "a", val.S("new")), CondStr: sp("a = = :v"), Values: sv})
 		add("Del(condition syntax error)", drv.Op{K: drv.KDel, Key: k, CondStr: sp("attribute_exists(h")})
